@@ -84,14 +84,14 @@ BatchVerdict(o) ==
     ELSE IF ~RecordStreamOf(d, requested) THEN "record-stream"
     ELSE IF ~WholeOf(d) THEN "record-stream"
     ELSE IF ~Ev.ok THEN "write-raised"
-    ELSE IF d # disk THEN "ok-layout-differs"
+    ELSE IF d # disk THEN "file-boundary-differs"      \* all records there, but a new file was started although the record fitted
     ELSE "ok"
 
 CrashVerdictOne(o) ==
     LET d == ObsDir(o) IN
     IF o.stray > 0 \/ ~ConsecutiveOf(d) THEN "numbering"
     ELSE IF ~AppendOnlyStep(prev, d) THEN "crash-earlier-bytes-modified"
-    ELSE IF ~EarlierIntactOf(d, committed) THEN "crash-earlier-blocks-lost"
+    ELSE IF ~EarlierIntactOf(d, requested - Len(Ev.sizes)) THEN "crash-earlier-blocks-lost"   \* blocks of the calls that had returned
     ELSE IF ~CrashPrefixOf(d, requested) THEN "crash-not-prefix"
     ELSE IF ~BoundedOf(d) THEN "bounded"
     ELSE "ok-layout-differs"
